@@ -20,7 +20,8 @@ ASSUMPTIONS = [
 ]
 
 TRUSTED = ["harness hgov (real handlers through native.NativeService.Invoke on CacheDB/OverlayDB/memory LevelDB) + drv_gov "
-           "(correspondence check)", "Lean compiler for the driver", "extract/thresholds (quorum expressions regenerated from the Go source)"]
+           "(correspondence check)", "Lean compiler for the driver", "extract/thresholds (quorum expressions regenerated from the Go source)",
+           "extract/govkeys (CheckConsensusSigns call sites, deleted / stored key prefixes per function; go/parser based)"]
 
 
 def run_streams(ctx, prop, streams, theorem_hint):
@@ -29,6 +30,9 @@ def run_streams(ctx, prop, streams, theorem_hint):
     ctx.cov["trusted_base"] += TRUSTED
     # the model's quorum tests are the generated definitions: regenerate them from /repo first
     if ctx.run_extract("thresholds", ["lean"], out_lean="Thresholds.lean") is None:
+        return
+    # call sites of CheckConsensusSigns / ClearConsensusSigns and the key prefixes deleted and stored per function
+    if ctx.run_extract("govkeys", ["lean"], out_lean="GovKeys.lean") is None:
         return
     ctx.lean_props()
     hbin = ctx.build_harness("hgov")
